@@ -36,14 +36,14 @@ CHECK = {
     'quick': [
       T('int11', 'base', 'keys=int', 'nkeys=11', 'nvals=1'),
       T('int7x2', 'base', 'keys=int', 'nkeys=7', 'nvals=2'),
-      T('int8-asan', 'asan', 'keys=int', 'nkeys=8', 'nvals=1'),
+      T('int9-asan', 'asan', 'keys=int', 'nkeys=9', 'nvals=1'),
       T('int5x2-asan', 'asan', 'keys=int', 'nkeys=5', 'nvals=2'),
-      T('str8', 'base', 'keys=str', 'nkeys=8', 'nvals=1'),
+      T('str10', 'base', 'keys=str', 'nkeys=10', 'nvals=1'),
       T('str6x2', 'base', 'keys=str', 'nkeys=6', 'nvals=2'),
-      T('str6-asan', 'asan', 'keys=str', 'nkeys=6', 'nvals=1'),
-      T('probe8', 'base', 'keys=probe', 'vals=probe', 'prop=C05', 'nkeys=8', 'nvals=1'),
+      T('str8-asan', 'asan', 'keys=str', 'nkeys=8', 'nvals=1'),
+      T('probe10', 'base', 'keys=probe', 'vals=probe', 'prop=C05', 'nkeys=10', 'nvals=1'),
       T('probe6x2', 'base', 'keys=probe', 'vals=probe', 'prop=C05', 'nkeys=6', 'nvals=2'),
-      T('probe6-asan', 'asan', 'keys=probe', 'vals=probe', 'prop=C05', 'nkeys=6', 'nvals=1'),
+      T('probe8-asan', 'asan', 'keys=probe', 'vals=probe', 'prop=C05', 'nkeys=8', 'nvals=1'),
       T('ladder-int', 'base', 'mode=ladder', 'keys=int', 'sizes=1,2,3,7,16,33,100,300,1000,4000,10000'),
       T('ladder-str', 'base', 'mode=ladder', 'keys=str', 'sizes=100,1000,4000'),
       T('ladder-asan', 'asan', 'mode=ladder', 'keys=int', 'sizes=1,2,3,16,100,1000'),
@@ -51,14 +51,14 @@ CHECK = {
     'thorough': [
       T('int14', 'base', 'keys=int', 'nkeys=14', 'nvals=1'),
       T('int9x2', 'base', 'keys=int', 'nkeys=9', 'nvals=2'),
-      T('int11-asan', 'asan', 'keys=int', 'nkeys=11', 'nvals=1'),
+      T('int12-asan', 'asan', 'keys=int', 'nkeys=12', 'nvals=1'),
       T('int7x2-asan', 'asan', 'keys=int', 'nkeys=7', 'nvals=2'),
-      T('str11', 'base', 'keys=str', 'nkeys=11', 'nvals=1'),
+      T('str12', 'base', 'keys=str', 'nkeys=12', 'nvals=1'),
       T('str8x2', 'base', 'keys=str', 'nkeys=8', 'nvals=2'),
-      T('str9-asan', 'asan', 'keys=str', 'nkeys=9', 'nvals=1'),
-      T('probe11', 'base', 'keys=probe', 'vals=probe', 'prop=C05', 'nkeys=11', 'nvals=1'),
+      T('str10-asan', 'asan', 'keys=str', 'nkeys=10', 'nvals=1'),
+      T('probe12', 'base', 'keys=probe', 'vals=probe', 'prop=C05', 'nkeys=12', 'nvals=1'),
       T('probe8x2', 'base', 'keys=probe', 'vals=probe', 'prop=C05', 'nkeys=8', 'nvals=2'),
-      T('probe9-asan', 'asan', 'keys=probe', 'vals=probe', 'prop=C05', 'nkeys=9', 'nvals=1'),
+      T('probe10-asan', 'asan', 'keys=probe', 'vals=probe', 'prop=C05', 'nkeys=10', 'nvals=1'),
       T('ladder-int', 'base', 'mode=ladder', 'keys=int', 'sizes=1,2,3,4,5,6,7,8,15,16,17,31,32,33,64,100,255,300,1000,4000,10000'),
       T('ladder-str', 'base', 'mode=ladder', 'keys=str', 'sizes=16,100,300,1000,4000,10000'),
       T('ladder-asan', 'asan', 'mode=ladder', 'keys=int', 'sizes=1,2,3,16,100,300,1000,4000'),
